@@ -115,8 +115,10 @@ def slComp (fuel : Nat) (s : SlSt) (comp : Bytes) (special : Bool) (flag : Nat) 
   match fuel with
   | 0 => s
   | fuel + 1 =>
-    let minimum := if special then 2 else 3
-    -- no room even for the smallest component: close this SL record and open a new one in the CE area
+    -- the smallest piece that can be recorded: a special component (2 bytes), one byte of the component (3), or an
+    -- empty component (2)
+    let minimum := if special || comp.isEmpty then 2 else 3
+    -- no room even for that: close this SL record and open a new one in the CE area
     let s := if minimum > s.area then s.reopen (offset ≠ 0) else s
     if special then s.push { flags := flag, data := [] } 2 2
     else
@@ -124,7 +126,8 @@ def slComp (fuel : Nat) (s : SlSt) (comp : Bytes) (special : Bool) (flag : Nat) 
       let complen := 2 + restc.length
       let length := if complen > s.area then s.area - 2 else complen
       let slice := restc.take length
-      let s' := s.push { flags := 0, data := slice } (2 + slice.length) (length + 2)
+      -- the component record takes its two header bytes plus the bytes put into it
+      let s' := s.push { flags := 0, data := slice } (2 + slice.length) (2 + slice.length)
       if offset + length ≥ comp.length then s' else slComp fuel s' comp false 0 (offset + length)
 
 def splitSlash : Bytes → List Bytes
@@ -141,7 +144,8 @@ def newSymlink (hasCE : Bool) (a : Acc) (target : Bytes) : Option Acc :=
   let total := 5 + (comps.map fun c => 2 + (if c = [46] ∨ c = [46, 46] ∨ c = [47] then 0 else c.length)).sum
   if a.cur + total > allowed ∧ !hasCE then none
   else
-    let inDr := a.cur + 8 < allowed
+    -- without a continuation entry everything goes into the directory record (the check above made sure it fits)
+    let inDr := !hasCE || a.cur + 8 < allowed
     let s0 : SlSt := { cur := if inDr then a.cur + 5 else a.cur, inDr := inDr,
                        area := if inDr then allowed - a.cur - 5 else 250, open_ := [], doneDr := [], doneCe := [] }
     let s := (List.zip (List.range comps.length) comps).foldl (fun s (i, c) =>
@@ -183,7 +187,7 @@ deriving Repr
 def rrNew (first : Bool) (ver : Ver) (name : Bytes) (target : Option Bytes) (cl re pl : Bool) (cur : Nat) :
     Option RRLayout :=
   match assign false first ver name target cl re pl cur with
-  | some a => some { drLen := a.cur + a.cur % 2, hasCE := false, dr := a.dr, ce := a.ce, ceLen := (a.ce.map Ent.len).sum }
+  | some a => some { drLen := a.cur + a.cur % 2, hasCE := false, dr := a.dr, ce := [], ceLen := 0 }
   | none =>
     match assign true first ver name target cl re pl (cur + 28) with
     | some a =>
